@@ -149,3 +149,28 @@ func VerifC15_Follow() {
 	zzverif.Assert(m == n, "what follows on a new line never moves the boundary")
 	zzverif.Reach("same")
 }
+
+// VerifC15_LenAfterLoad: Len() does not depend on what was called before on
+// the same object (Check, GetAST, Example ...), also for texts with leading
+// and trailing blanks.
+func VerifC15_LenAfterLoad() {
+	zzverif.Expect("same")
+	lead := []string{"", " ", "\n", "\t \n"}[zzverif.IntRange("lead", 0, 3)]
+	tail := []string{"", " ", "\n"}[zzverif.IntRange("tail", 0, 2)]
+	S := vJoin([]byte(lead), vRootTemplate(), []byte(tail))
+	n1, e1 := New("s", S).Len()
+	s := New("s", S)
+	switch zzverif.IntRange("before", 0, 3) {
+	case 0:
+		_ = s.Check()
+	case 1:
+		_, _ = s.GetAST()
+	case 2:
+		_, _ = s.Example()
+	default:
+		_, _ = s.UsedUserTypes()
+	}
+	n2, e2 := s.Len()
+	zzverif.Assert((e1 == nil) == (e2 == nil) && n1 == n2, "Len() is the same before and after the schema was loaded")
+	zzverif.Reach("same")
+}
